@@ -3,7 +3,7 @@
     from rebench/subprocess_with_timeout.py on every run; the collection of the tree mirrors
     rebench/subprocess_kill.py; the classification of a timed-out invocation is Model/Retry.classify.
     Tied to the real code by harness/c16.py (real process trees, real limits and signals). *)
-From Coq Require Import List ZArith Bool Arith.
+From Coq Require Import List ZArith Bool Arith Lia.
 Import ListNotations.
 From RV Require Import Gen.GenFacts Gen.GenTermination Model.Retry Model.Kill Proofs.KillP.
 
@@ -46,6 +46,20 @@ Theorem C16_interrupt_reraised :
     decide limit true finished alive = (if finished then ARaise else AKillRaise).
 Proof. intros [|] [|] [|]; reflexivity. Qed.
 Print Assumptions C16_interrupt_reraised.
+
+(** Limits of ten minutes and more are waited for in slices: the total waiting time is the limit, or the run time of
+    the process if that is shorter - never more - and every slice is at most ten minutes. *)
+Theorem C16_long_limit_exact :
+  forall fuel limit run,
+    (0 <= limit)%Z -> (limit <= 600 * Z.of_nat fuel)%Z ->
+    fst (join_loop fuel limit run 0) = Z.max 0 (Z.min limit run)
+    /\ forall x, In x (snd (join_loop fuel limit run 0)) -> (0 < x <= 600)%Z.
+Proof.
+  intros fuel limit run H0 Hf. split.
+  - apply join_loop_waits; lia.
+  - intros x Hx. apply (join_loop_slices fuel limit run 0 x H0 Hx).
+Qed.
+Print Assumptions C16_long_limit_exact.
 
 (** A timed-out invocation (exit status -9) is a failure, or with ignore_timeouts what the adapter
     makes of the output printed so far. *)
